@@ -1,8 +1,72 @@
-(* C12 — Schema serialization round-trips and preserves order. *)
-From ApolloVerif Require Import Base.Chars Ast.Ast Schema.Model Schema.Build Schema.ToAst Schema.Canon.
+(* C12 — Schema serialization round-trips and preserves order (AST level: Schema::to_ast followed by
+   the schema builder).  Property theorems only.
+   Models: Schema/Build.v (from_ast.rs), Schema/ToAst.v (serialize.rs), Schema/Canon.v. *)
+From ApolloVerif Require Import Base.Chars Ast.Ast Schema.Model Schema.Build Schema.ToAst Schema.Canon
+  Schema.RebuildProofs.
 
-(* placeholder while the tie is being built *)
-Lemma C12_subseq_nil : forall b, c12_subseq [] b = true.
-Proof. destruct b; reflexivity. Qed.
-Check C12_subseq_nil : forall b, c12_subseq [] b = true.
-Print Assumptions C12_subseq_nil.
+(* ---- the witness of D10 *)
+Definition c12_Query : str := [81; 117; 101; 114; 121].
+Definition c12_Int : str := [73; 110; 116].
+Definition c12_dname : str := [100].
+Definition c12_fd (n : str) : fielddef :=
+  {| fd_desc := None; fd_name := n; fd_args := []; fd_ty := TNamed c12_Int; fd_dirs := [] |}.
+(* type Query { f: Int }  extend type Query { a: Int }  extend type Query @d { b: Int }  directive @d on OBJECT *)
+Definition c12_witness : document :=
+  [ DObject None c12_Query [] [] [c12_fd [102]];
+    XObject c12_Query [] [] [c12_fd [97]];
+    XObject c12_Query [] [{| d_name := c12_dname; d_args := [] |}] [c12_fd [98]];
+    DDirective None c12_dname [] false [LObject] ].
+Definition c12_b0 : schema :=
+  {| sch_def := sb_empty_schema_def; sch_dirdefs := []; sch_types := [EScalar None c12_Int [] true] |}.
+Definition c12_cfg : sb_cfg := {| sbc_adopt := false; sbc_ignore_builtin := false |}.
+
+Definition c12_field_names (s : schema) : list str :=
+  match sch_get_type s c12_Query with
+  | Some (EObject _ _ _ _ fields _) => map (fun c => fd_name (c_val c)) fields
+  | _ => []
+  end.
+
+(* the unrestricted statement is false of the faithful model: the witness builds without errors, its
+   to_ast re-builds without errors, but the fields f, a, b come back as f, b, a (finding D10) *)
+Theorem C12_order_refuted :
+  exists defs s s',
+    sb_build c12_cfg c12_b0 defs = SbBuilt s [] /\
+    sb_build c12_cfg c12_b0 (sch_to_ast s) = SbBuilt s' [] /\
+    c12_field_names s = [[102]; [97]; [98]] /\ c12_field_names s' = [[102]; [98]; [97]] /\
+    ~ sch_equiv s' s /\ c12_known s = true.
+Proof.
+  exists c12_witness. eexists. eexists.
+  split; [vm_compute; reflexivity|]. split; [vm_compute; reflexivity|].
+  split; [vm_compute; reflexivity|]. split; [vm_compute; reflexivity|].
+  split; [|vm_compute; reflexivity]. unfold sch_equiv. vm_compute. intros H. discriminate H.
+Qed.
+Check C12_order_refuted :
+  exists defs s s',
+    sb_build c12_cfg c12_b0 defs = SbBuilt s [] /\
+    sb_build c12_cfg c12_b0 (sch_to_ast s) = SbBuilt s' [] /\
+    c12_field_names s = [[102]; [97]; [98]] /\ c12_field_names s' = [[102]; [98]; [97]] /\
+    ~ sch_equiv s' s /\ c12_known s = true.
+Print Assumptions C12_order_refuted.
+
+(* Full statement (C12_rebuild):
+     forall cfg b0 defs s, sb_build cfg b0 defs = SbBuilt s [] -> c12_known s = false ->
+       exists s', sb_build cfg b0 (sch_to_ast s) = SbBuilt s' [] /\ sch_equiv s' s
+   (sch_equiv: equal including the order of types, fields, arguments, enum values, union members,
+   interfaces, directive applications and the partition of components into definition / extensions, up
+   to a renaming of extension ids).
+   Proved here: the statement for every schema s that is well-formed w.r.t. the built-in definitions b0
+   (rb_wf: directive definitions = built-ins, possibly replaced in place, then user definitions with
+   distinct names; types = the built-in types with extension components added, then user types with
+   distinct names; map keys unique; every component list lists the definition's components first and
+   then those of the extensions in the order in which `extensions()` discovers them — the negation of
+   Known_C12 for lists built by appending; the schema definition consistent with the builder
+   configuration).  Missing: the invariant that every schema the builder returns without errors and
+   outside Known_C12 is well-formed in this sense. *)
+Theorem C12_rebuild_partial : forall cfg b0 s,
+  rb_wf cfg b0 s ->
+  exists s', sb_build cfg b0 (sch_to_ast s) = SbBuilt s' [] /\ sch_equiv s' s /\ sch_to_ast s' = sch_to_ast s.
+Proof. exact rb_rebuild. Qed.
+Check C12_rebuild_partial : forall cfg b0 s,
+  rb_wf cfg b0 s ->
+  exists s', sb_build cfg b0 (sch_to_ast s) = SbBuilt s' [] /\ sch_equiv s' s /\ sch_to_ast s' = sch_to_ast s.
+Print Assumptions C12_rebuild_partial.
